@@ -1140,7 +1140,7 @@ func (w *watchdog) watch(res *vlib.Result, out string) {
 		w.mu.Lock()
 		c, since := w.cur, w.since
 		w.mu.Unlock()
-		if c != nil && time.Since(since) > 20*time.Second {
+		if c != nil && time.Since(since) > 120*time.Second {
 			res.Fail(vlib.Failure{Source: "correspondence", Kind: "case-hangs", Params: map[string]interface{}{},
 				What: "the case did not finish: the code under test livelocks or deadlocks under virtual time (the model terminates on it)", Case: *c})
 			res.Write(out)
